@@ -38,12 +38,18 @@ type Coll struct {
 // StartCollector starts cp.Start() in a goroutine and waits until the address is published
 // (the only readiness signal the API offers).
 func StartCollector(in collector.CollectorInput) (*Coll, error) {
+	return StartCollectorPaced(in, nil)
+}
+
+// StartCollectorPaced is StartCollector with a consumer pacing function.
+func StartCollectorPaced(in collector.CollectorInput, pause func()) (*Coll, error) {
 	cp, err := collector.InitCollectingProcess(in)
 	if err != nil {
 		return nil, err
 	}
 	c := &Coll{CP: cp, byDomain: map[uint32][]Delivery{}, startRet: make(chan struct{}), consDone: make(chan struct{}), stopCons: make(chan struct{})}
 	c.cond = sync.NewCond(&c.mu)
+	c.Pause = pause
 	go func() {
 		defer close(c.startRet)
 		cp.Start()
